@@ -500,3 +500,153 @@ def gen_type_unit(rng):
     out.append("\n".join(lines))
     rng.shuffle(out)
     return "\n\n".join(out) + "\n"
+
+
+# ---- the three rules on type declarations, with their labels (Model/DeclRules.v) ----
+DECL_RULES = ["rule_decl_struct_element_unique_names", "rule_enumeration_values_unique", "rule_decl_subrange_limits"]
+
+
+def _impl_labelled(ds):
+    return [(int(d["code"][1:]), (d["start"], d["end"]), [(x[1], x[2]) for x in d.get("secondary", [])]) for d in ds]
+
+
+def _model_labelled(field):
+    if field == "-":
+        return []
+    out = []
+    for w in field.split():
+        p = w.split("@")
+        sp = [tuple(int(v) for v in x.split("-")) for x in p[1:]]
+        out.append((int(p[0]), sp[0], sp[1:]))
+    return out
+
+
+def gen_decl_unit(rng):
+    """type declarations aimed at the three rules: structures and enumerations over few names written in varying letter case
+    (a name up to three times), subranges with bounds on either side of each other in type declarations, structure elements,
+    array bounds and variable declarations"""
+    lines = ["TYPE"]
+    names = ["va", "vb", "vc", "vd"]
+
+    def bounds():
+        k = rng.randrange(6)
+        if k == 0:
+            a = rng.randint(-5, 5)
+            return a, a
+        if k == 1:
+            return rng.randint(0, 9), -rng.randint(0, 9)
+        if k == 2:
+            return -rng.randint(0, 3), rng.randint(0, 3)
+        a, b = rng.randint(-20, 20), rng.randint(-20, 20)
+        return a, b
+
+    def b2s(v):
+        return ("-0" if rng.random() < 0.1 else "0") if v == 0 else str(v)
+
+    n = rng.randint(1, 5)
+    for i in range(n):
+        k = rng.randrange(4)
+        if k == 0:
+            cnt = rng.randint(1, 5)
+            els = [rng.choice(names) for _ in range(cnt)] if rng.random() < 0.7 else rng.sample(names, min(cnt, 4))
+            body = []
+            for e in els:
+                lo, hi = bounds()
+                ty = rng.choice(["INT", "BOOL", "INT (%s..%s)" % (b2s(lo), b2s(hi)), "ARRAY[%s..%s] OF INT" % (b2s(lo), b2s(hi))])
+                body.append("    %s : %s;" % (_case(rng, e), ty))
+            lines.append("  S%d : STRUCT\n%s\n  END_STRUCT;" % (i, "\n".join(body)))
+        elif k == 1:
+            cnt = rng.randint(1, 5)
+            vs = [rng.choice(names) for _ in range(cnt)] if rng.random() < 0.7 else rng.sample(names, min(cnt, 4))
+            vs = ["%s%d" % (_case(rng, v), i) for v in vs]
+            lines.append("  E%d : (%s)%s;" % (i, ", ".join(vs), (" := " + vs[0]) if rng.random() < 0.5 else ""))
+        elif k == 2:
+            lo, hi = bounds()
+            lines.append("  R%d : INT (%s..%s);" % (i, b2s(lo), b2s(hi)))
+        else:
+            lo, hi = bounds()
+            lo2, hi2 = bounds()
+            lines.append("  A%d : ARRAY[%s..%s, %s..%s] OF INT;" % (i, b2s(lo), b2s(hi), b2s(lo2), b2s(hi2)))
+    lines.append("END_TYPE")
+    if rng.random() < 0.5:
+        lo, hi = bounds()
+        lines.append("FUNCTION_BLOCK fb_d\nVAR\n  r : INT (%s..%s);\n  q : ARRAY[%s..%s] OF BOOL;\nEND_VAR\nEND_FUNCTION_BLOCK" % (
+            b2s(lo), b2s(hi), b2s(hi), b2s(lo)))
+    return "\n".join(lines) + "\n"
+
+
+def check_declrules(run, filesets, info, tag, labels_are_property=False):
+    """The three rules run by themselves on the resolved library; the models get the declaration facts of that library.  Per
+    rule the lists of (code, primary label, secondary labels) must be equal, in order.  A different verdict or code is a failing
+    input; so is a different label when `labels_are_property` (C05: the model's labels are the documented places, theorems
+    C05_struct_labels / C05_enum_labels / C05_subrange_labels); otherwise it is a broken correspondence."""
+    if not filesets or not info.get("extract_ok"):
+        return 0, 0
+    cases = [{"id": i, "op": "declfacts", "files": [[n, hexs(t)] for n, t in fs]} for i, fs in enumerate(filesets)]
+    res = vlib.run_impl(cases, run.workdir, per_case_timeout=30)
+    lines = []
+    for i, r in enumerate(res):
+        if "panic" in r or "abort" in r:
+            text = "\n".join(t for _, t in filesets[i])
+            run.violation("impl-violates-property", "a rule on type declarations crashed (%s): %s" % (
+                str(r.get("panic") or r.get("abort"))[:160], text[:200].replace("\n", " ")), {"input": {"text": text, "files": [[n, t] for n, t in filesets[i]]}})
+            continue
+        if "facts" not in r or r.get("parse_errs") or "rules" not in r:
+            continue
+        lines.append(("declrules", i, r["facts"]))
+    model = vlib.run_model(lines, run.workdir)
+    compared = bad = 0
+    for op, i, facts in lines:
+        m = model.get(str(i))
+        r = res[i]
+        text = "\n".join(t for _, t in filesets[i])
+        rep = {"input": {"text": text, "files": [[n, t] for n, t in filesets[i]]}, "decl_facts": facts, "op": "declrules"}
+        if not m or len(m) != len(DECL_RULES):
+            bad += 1
+            run.violation("correspondence", "the declaration rule models gave no answer (%r) for: %s" % (m, text[:160].replace("\n", " ")), rep, no_input=True)
+            continue
+        compared += 1
+        run.cov["traces_validated_against_impl"] += 1
+        run.count(("declfacts", tuple(filesets[i])), True, "decl-rule-facts:" + tag)
+        for k, rule in enumerate(DECL_RULES):
+            want = _model_labelled(m[k])
+            got = _impl_labelled(r["rules"].get(rule, []))
+            if want:
+                run.count(("decl-rule-fires", rule, tuple(filesets[i])), False, "decl-rule-model-fires:%s:%d" % (rule[5:], min(len(want), 3)))
+            if want == got:
+                continue
+            bad += 1
+            codes_w, codes_g = [c for c, _, _ in want], [c for c, _, _ in got]
+            if codes_w != codes_g:
+                what = "%s reports %r, the documented rule gives %r" % (rule, ["P%04d" % c for c in codes_g], ["P%04d" % c for c in codes_w])
+                run.violation("impl-violates-property", what + ": " + text[:200].replace("\n", " "), dict(rep, rule=rule, model=want, impl=got))
+            elif labels_are_property:
+                b = text.encode("utf-8")
+                j = next(x for x in range(len(want)) if want[x] != got[x])
+                sl = lambda s: b[s[0]:s[1]].decode("utf-8", "replace")
+                what = "%s: diagnostic %d has its labels on %r (offsets %r), the documented places are %r (offsets %r)" % (
+                    rule, j, [sl(got[j][1])] + [sl(x) for x in got[j][2]], [got[j][1]] + got[j][2],
+                    [sl(want[j][1])] + [sl(x) for x in want[j][2]], [want[j][1]] + want[j][2])
+                run.violation("impl-violates-property", what + ": " + text[:200].replace("\n", " "), dict(rep, rule=rule, model=want, impl=got))
+            else:
+                run.cov["disagreements_checked"] += 1
+                run.violation("correspondence", "%s labels %r, the model computes %r: %s" % (rule, got, want, text[:200].replace("\n", " ")),
+                              dict(rep, rule=rule), no_input=True)
+            break
+    return compared, bad
+
+
+def replay_declrules(run, files):
+    """1 when model and rules still differ on the recorded files, 0 when they agree, 2 when it cannot be decided"""
+    r = vlib.run_impl([{"id": 0, "op": "declfacts", "files": [[n, hexs(t)] for n, t in files]}], run.workdir, per_case_timeout=30)[0]
+    if "panic" in r or "abort" in r:
+        return 1
+    if "facts" not in r or "rules" not in r:
+        return 2
+    m = vlib.run_model([("declrules", 0, r["facts"])], run.workdir).get("0")
+    if not m or len(m) != len(DECL_RULES):
+        return 2
+    for k, rule in enumerate(DECL_RULES):
+        if _model_labelled(m[k]) != _impl_labelled(r["rules"].get(rule, [])):
+            return 1
+    return 0
